@@ -17,17 +17,11 @@ def v3at (a : Array Float) (i : Nat) : V3 Float := ⟨a[i]!, a[i+1]!, a[i+2]!⟩
 def obbAt (a : Array Float) (i : Nat) : Obb Float :=
   ⟨⟨⟨v3at a i, v3at a (i+3), v3at a (i+6)⟩, v3at a (i+9)⟩, v3at a (i+12)⟩
 
-/-- exported tree: boxes + leaf faces -/
-inductive XT where
-  | leaf (box : Obb Float) (faces : List Nat)
-  | node (box : Obb Float) (c1 c2 : XT)
-
 instance : Inhabited (Obb Float) := ⟨⟨⟨⟨⟨1, 0, 0⟩, ⟨0, 1, 0⟩, ⟨0, 0, 1⟩⟩, ⟨0, 0, 0⟩⟩, ⟨0, 0, 0⟩⟩⟩
-instance : Inhabited XT := ⟨.leaf default []⟩
-instance : Inhabited (BT Nat Float) := ⟨.leaf []⟩
+instance : Inhabited (XT Float) := ⟨.leaf default []⟩
 instance : Inhabited (V3 Float) := ⟨⟨0, 0, 0⟩⟩
 
-partial def parseTree (a : Array Float) (i : Nat) : XT × Nat :=
+partial def parseTree (a : Array Float) (i : Nat) : XT Float × Nat :=
   let tag := a[i]!
   let box := obbAt a (i+1)
   if tag == 0 then
@@ -38,13 +32,6 @@ partial def parseTree (a : Array Float) (i : Nat) : XT × Nat :=
     let (c1, i1) := parseTree a (i+16)
     let (c2, i2) := parseTree a i1
     (.node box c1 c2, i2)
-
-def XT.box : XT → Obb Float | .leaf b _ => b | .node b _ _ => b
-
-/-- the abstract tree of the model for one query: bounds computed from the exported boxes by the model -/
-partial def toBT (bound : Obb Float → Option Float) : XT → BT Nat Float
-  | .leaf _ fs => .leaf fs
-  | .node _ c1 c2 => .node (bound c1.box) (toBT bound c1) (bound c2.box) (toBT bound c2)
 
 def meshQuery (a : Array Float) : List String := Id.run do
   -- a[0..2] = generator parameters of the harness (kind, seed, subdivision); a[3] = number of queries; 9 numbers each
@@ -62,8 +49,7 @@ def meshQuery (a : Array Float) : List String := Id.run do
   for q in [0:nq] do
     let p := v3at a (iq + 1 + 9*q); let o := v3at a (iq + 4 + 9*q); let d := v3at a (iq + 7 + 9*q)
     -- nearest point
-    let cN (f : Nat) : Option Float := let (v1, v2, v3) := tri3 f; some (triDist2 v1 v2 v3 p)
-    let rN := search cN (toBT (fun b => some (b.dist2 p)) tree)
+    let rN := meshNearest tri3 tree p
     match rN with
     | some f => let (v1, v2, v3) := tri3 f; let r := triNearest v1 v2 v3 p
                 out := out ++ ["O mesh.nearest" ++ fl (V3.normSq (V3.sub r.1 p) :: r.1.toList)]
@@ -76,7 +62,7 @@ def meshQuery (a : Array Float) : List String := Id.run do
       triRay n v1 v2 v3 o d
     let rR := match tree.box.ray negInf o d with
       | none => none
-      | some _ => search cR (toBT (fun b => b.ray negInf o d) tree)
+      | some _ => search cR (tree.toBT (fun b => b.ray negInf o d))
     match rR with
     | some f => out := out ++ ["O mesh.ray 1" ++ fl [(cR f).getD 0]]
     | none => out := out ++ ["O mesh.ray 0"]
